@@ -224,6 +224,8 @@ func (m *collection) mergerWaitForWork(pings []ping) (
 	stopped, mergeAll bool, pingsOut []ping) {
 	var waitDirtyIncomingCh chan struct{}
 
+	verifGate("merger:wait", m)
+
 	m.m.Lock()
 
 	// Any executed batch leaves a non-nil stackDirtyTop, even a batch
